@@ -94,19 +94,19 @@ fn set_str<D: read_fonts::collections::int_set::Domain>(s: &IntSet<D>, cap: u64,
 
 /// what one evaluation of the real code produced: the canonical response and the group's oracles
 #[derive(Default)]
-struct Out {
-    resp: String,
+pub(super) struct Out {
+    pub(super) resp: String,
     checks: Vec<(&'static str, bool, String)>,
 }
 
 impl Out {
-    fn check(&mut self, name: &'static str, ok: bool, detail: impl FnOnce() -> String) {
+    pub(super) fn check(&mut self, name: &'static str, ok: bool, detail: impl FnOnce() -> String) {
         self.checks.push((name, ok, if ok { String::new() } else { detail() }));
     }
 }
 
 /// one correspondence case: the real code inside `catch`, its oracles, then `ctx.case`
-fn ask(ctx: &mut Ctx, req: String, bytes: &[u8], f: impl FnOnce() -> Out) {
+pub(super) fn ask(ctx: &mut Ctx, req: String, bytes: &[u8], f: impl FnOnce() -> Out) {
     PROGRESS.fetch_add(1, Ordering::Relaxed);
     {
         // what the watchdog / the crash tracer report as the current input
@@ -469,7 +469,7 @@ fn colr_table(rng: &mut Rng, version: u16, order: u32) -> B {
 }
 
 /// COLR v1 header + BaseGlyphList + LayerList whose offsets point into `paints`
-fn colr_v1_raw(records: &[(u16, u32)], layers: &[u32], paints: &[u8]) -> Vec<u8> {
+pub(super) fn colr_v1_raw(records: &[(u16, u32)], layers: &[u32], paints: &[u8]) -> Vec<u8> {
     let mut b = B::new();
     b.u16(1).u16(0).u32(0).u32(0).u16(0);
     let hdr = 34u32;
@@ -627,7 +627,7 @@ fn v0_work_inner(bytes: &[u8]) -> usize {
     }
 }
 
-fn colr_closures(bytes: &[u8], set: &[u32]) -> Out {
+pub(super) fn colr_closures(bytes: &[u8], set: &[u32]) -> Out {
     let mut out = Out::default();
     let Ok(colr) = Colr::read(FontData::new(bytes)) else {
         out.resp = "rerr".into();
